@@ -592,7 +592,181 @@ func (in *Interp) formatOperand(fr *frame, arg Iface, verb byte) Value {
 	return nil
 }
 
-// parseSymCIDR inverts NetStr: net.ParseCIDR(NetStr(ip16, ones, fam)).
+// maskBytes builds the bytes of net.CIDRMask(n, 8*nbytes) for a symbolic n (64-bit term).
+func maskBytes(n *Term, nbytes int) []Value {
+	out := make([]Value, nbytes)
+	for i := 0; i < nbytes; i++ {
+		lo := BV(64, uint64(8*i))
+		hi := BV(64, uint64(8*(i+1)))
+		part := BvNot(BvBin(OLshr, BV(8, 0xff), Resize(BvBin(OSub, n, lo), 8, false)))
+		out[i] = Ite(Cmp(OSle, hi, n), BV(8, 0xff), Ite(Cmp(OSle, n, lo), BV(8, 0), part))
+	}
+	return out
+}
+
+// parseSymCIDR implements net.ParseCIDR on the symbolic texts  [::ffff:]IPStr(a) "/" Dec(n).
 func (in *Interp) parseSymCIDR(s *SymStr) Value {
-	return nil
+	if s.opaque {
+		return nil
+	}
+	var segs []seg
+	flattenStr(s.t, &segs)
+	mapped := false
+	if len(segs) == 4 && segs[0].atom == nil && segs[0].lit == "::ffff:" {
+		mapped = true
+		segs = segs[1:]
+	}
+	if len(segs) != 3 || segs[0].atom == nil || segs[1].atom != nil || segs[1].lit != "/" || segs[2].atom == nil {
+		return nil
+	}
+	ipT, nT := segs[0].atom, segs[2].atom
+	if ipT.op != OApp || ipT.name != "IPStr" || nT.op != OApp || nT.name != "Dec" {
+		return nil
+	}
+	n := nT.args[0]
+	// is the address of the IPv4 form (::ffff:a.b.c.d)? decided from the concrete prefix bytes
+	isV4 := true
+	for i := 0; i < 12; i++ {
+		b := ipT.args[i]
+		want := uint64(0)
+		if i >= 10 {
+			want = 0xff
+		}
+		if b.op != OConst {
+			in.abort("unsupported: ParseCIDR on an address whose family is symbolic")
+		}
+		if b.val != want {
+			isV4 = false
+		}
+	}
+	if mapped && !isV4 {
+		return nil
+	}
+	errT := in.newError("net.ParseCIDR", nil)
+	bad := Tuple{Slice(nil), (*Value)(nil), errT}
+	if !isV4 || mapped {
+		if !in.decide(And(Cmp(OSle, BV(64, 0), n), Cmp(OSle, n, BV(64, 128)))) {
+			return bad
+		}
+		mask := maskBytes(n, 16)
+		ip := make(Slice, 16)
+		masked := make(Slice, 16)
+		for i := 0; i < 16; i++ {
+			ip[i] = ipT.args[i]
+			masked[i] = BvBin(OBAnd, ipT.args[i], mask[i].(*Term))
+		}
+		st := Value(Struct{masked, Slice(mask)})
+		return Tuple{ip, &st, Iface{}}
+	}
+	if !in.decide(And(Cmp(OSle, BV(64, 0), n), Cmp(OSle, n, BV(64, 32)))) {
+		return bad
+	}
+	mask := maskBytes(n, 4)
+	ip := make(Slice, 16)
+	for i := 0; i < 16; i++ {
+		ip[i] = ipT.args[i]
+	}
+	masked := make(Slice, 4)
+	for i := 0; i < 4; i++ {
+		masked[i] = BvBin(OBAnd, ipT.args[12+i], mask[i].(*Term))
+	}
+	st := Value(Struct{masked, Slice(mask)})
+	return Tuple{ip, &st, Iface{}}
+}
+
+// ---- strings.Contains / SplitN / TrimSpace on symbolic strings with literal separators
+
+func segsToValue(in *Interp, segs []seg) Value {
+	var out Value = ""
+	for _, sg := range segs {
+		if sg.atom == nil {
+			out = in.strConcat(out, sg.lit)
+		} else {
+			out = in.strConcat(out, &SymStr{t: sg.atom})
+		}
+	}
+	return out
+}
+
+// atomMayContain reports whether the text of atom can contain byte c (unknown alphabets: yes).
+func atomMayContain(a *Term, c byte) bool {
+	if a.op == OIte {
+		return atomMayContain(a.args[1], c) || atomMayContain(a.args[2], c)
+	}
+	if l, ok := litOf(a); ok {
+		return strings.IndexByte(l, c) >= 0
+	}
+	alpha := atomAlphabet(a)
+	if alpha == "" {
+		return true
+	}
+	return strings.IndexByte(alpha, c) >= 0
+}
+
+func (in *Interp) symContains(s *SymStr, sub string) Value {
+	if s.opaque || len(sub) != 1 {
+		in.abort("unsupported: strings.Contains on symbolic text with needle %q", sub)
+	}
+	var segs []seg
+	flattenStr(s.t, &segs)
+	for _, sg := range segs {
+		if sg.atom == nil {
+			if strings.Contains(sg.lit, sub) {
+				return tTrue
+			}
+		} else if sg.atom.op == OApp && sg.atom.name == "Dec" && sub == "-" {
+			// a decimal contains '-' exactly when it is negative
+			if in.decide(Cmp(OSlt, sg.atom.args[0], BV(64, 0))) {
+				return tTrue
+			}
+		} else if atomMayContain(sg.atom, sub[0]) {
+			in.abort("unsupported: strings.Contains: separator %q may occur inside a symbolic piece", sub)
+		}
+	}
+	return tFalse
+}
+
+func (in *Interp) symSplitN(s *SymStr, sep string, n int) Value {
+	if s.opaque || len(sep) != 1 || n != 2 {
+		in.abort("unsupported: strings.SplitN on symbolic text")
+	}
+	var segs []seg
+	flattenStr(s.t, &segs)
+	for i, sg := range segs {
+		if sg.atom != nil {
+			if atomMayContain(sg.atom, sep[0]) {
+				in.abort("unsupported: strings.SplitN: separator may occur inside a symbolic piece")
+			}
+			continue
+		}
+		if k := strings.Index(sg.lit, sep); k >= 0 {
+			before := append(append([]seg{}, segs[:i]...), seg{lit: sg.lit[:k]})
+			after := append([]seg{{lit: sg.lit[k+1:]}}, segs[i+1:]...)
+			return Slice{segsToValue(in, before), segsToValue(in, after)}
+		}
+	}
+	return Slice{s}
+}
+
+func (in *Interp) symTrimSpace(s *SymStr) Value {
+	if s.opaque {
+		return s
+	}
+	var segs []seg
+	flattenStr(s.t, &segs)
+	if len(segs) == 0 {
+		return ""
+	}
+	if segs[0].atom == nil {
+		segs[0].lit = strings.TrimLeft(segs[0].lit, " \t\n\r")
+	} else if atomMayContain(segs[0].atom, ' ') {
+		in.abort("unsupported: TrimSpace on a symbolic piece that may contain spaces")
+	}
+	last := len(segs) - 1
+	if segs[last].atom == nil {
+		segs[last].lit = strings.TrimRight(segs[last].lit, " \t\n\r")
+	} else if atomMayContain(segs[last].atom, ' ') {
+		in.abort("unsupported: TrimSpace on a symbolic piece that may contain spaces")
+	}
+	return segsToValue(in, segs)
 }
